@@ -15,11 +15,11 @@ def plan(tier):
         return [(u, ledger.FEES[f], d, 0.0) for u, f, d in combos] + [("spot1+fut", ledger.FEES[1], 3, 0.05), ("fut+fut", ledger.FEES[0], 3, 0.05)]
     out = []
     for u in ledger.UNIVERSES:
-        for f in ledger.FEES:
-            out.append((u, f, 5, 0.0))
-    # one combination a level deeper
-    out[0] = (out[0][0], out[0][1], 6, 0.0)
-    out[7] = (out[7][0], out[7][1], 6, 0.0)
+        for f in (ledger.FEES[0], ledger.FEES[1], ledger.FEES[4], ledger.FEES[5]):
+            out.append((u, f, 4, 0.0))
+    # a level deeper on four combinations (split by first operation)
+    for u, f in (("spot1+fut", 1), ("fut+fut", 4), ("spot4+fut", 0), ("etf+es", 5)):
+        out.append((u, ledger.FEES[f], 5, 0.0))
     # interest accruing inside rebalances (rate 5%, markup 1%)
     for u in ("spot1+fut", "fut+fut", "spot+spot", "etf+es"):
         out.append((u, ledger.FEES[1], 4, 0.05))
@@ -40,7 +40,7 @@ def run(tier, pid):
     ops = ledger.alphabet()
     units = []
     for (u, f, d, rt) in plan(tier):
-        if d >= (4 if tier == "quick" else 6):
+        if d >= (4 if tier == "quick" else 5):
             # deep units are split by first operation (each part deduplicates on its own) to use all cores
             for op in ops:
                 units.append((u, f, d, rt, scale, deposit, [op]))
